@@ -8,6 +8,8 @@
 // state are validated by FrameSeal_Trace (rule composed with the window).
 // Stage T-rekey (rekey.go): the same oracle over histories in which the two
 // routers set up their keys several times, in the ways the router does it.
+// Stage T-wrap (wrap.go): the same oracle over frames that several goroutines
+// seal for one session at the same moment, across the wrap of the out sequence.
 package main
 
 import (
@@ -264,7 +266,7 @@ func clearOnWire(wire, payload []byte) bool {
 func main() { vf.Main("C02", "model_checking", run) }
 
 func run(c *vf.Ctx) {
-	c.Rule("M: TLC enumerates all 1536 cases (3 classes x switch block y/n x appendix y/n x 15 regions+none x transit y/n x 4 session relations) and checks signature/AEAD inputs against the protected-region rule. R: each case expanded over the class's message types, payload sizes {1,2,45,599,600,601,1599,5099,9599,9999,10000}, switch blocks {1,2,127,255}, appendices {1,64,9999,10000}, margins {(0,0),(12,16),(100,100)} and over bytes x bits of the mutated region (quick: first/last/random byte, bits 0,7,random; thorough: every byte x every bit up to 700-byte frames, 600 sampled bytes x 8 bits beyond), real sessions of three routers. T: streams with duplicates/reordering validated by FrameSeal_Trace. T-rekey: histories of 2-4 key set-ups between the same two routers (a side restarted / dropped its encryption session / kept it; hello style = client installs a new session and the server re-keys in place, both in place, both install; either router as client; also run by the real HelloPingHandler on two router stacks), traffic of all classes both ways after each, frames of the life before arriving late; same trace specification with the event rekey. distinct = distinct (case, message type, sizes, byte offset, bit)")
+	c.Rule("M: TLC enumerates all 1536 cases (3 classes x switch block y/n x appendix y/n x 15 regions+none x transit y/n x 4 session relations) and checks signature/AEAD inputs against the protected-region rule. R: each case expanded over the class's message types, payload sizes {1,2,45,599,600,601,1599,5099,9599,9999,10000}, switch blocks {1,2,127,255}, appendices {1,64,9999,10000}, margins {(0,0),(12,16),(100,100)} and over bytes x bits of the mutated region (quick: first/last/random byte, bits 0,7,random; thorough: every byte x every bit up to 700-byte frames, 600 sampled bytes x 8 bits beyond), real sessions of three routers. T: streams with duplicates/reordering validated by FrameSeal_Trace. T-rekey: histories of 2-4 key set-ups between the same two routers (a side restarted / dropped its encryption session / kept it; hello style = client installs a new session and the server re-keys in place, both in place, both install; either router as client; also run by the real HelloPingHandler on two router stacks), traffic of all classes both ways after each, frames of the life before arriving late; same trace specification with the event rekey. T-wrap: rounds in which 2..32 goroutines, released together, seal frames of the encrypted classes (some rounds: priority frames among them) for ONE session while its regular out sequence wraps and the out key rolls over (counter moved next to the wrap with the session's test helper, receiver's window at the sender's counter); every frame delivered untouched, once, in the order of the numbers, a replay now and then; same trace specification (schedule-dependent: the interleaving is made likely, not forced). distinct = distinct (case, message type, sizes, byte offset, bit)")
 	c.Assume("Ed25519 / ChaCha20-Poly1305 unforgeable (also tested: every flipped MAC/signature bit must fail)", "layout offsets are the driver's own table of the V1 format")
 
 	mc, err := c.TLC("FrameSeal", "FrameSeal_MC.cfg", vf.TLCOpts{Workers: 1, Coverage: true, Timeout: 5 * time.Minute})
@@ -631,4 +633,7 @@ func run(c *vf.Ctx) {
 
 	// ---- T-rekey: histories with more than one key set-up between the same two routers (rekey.go) ----
 	stageRekey(c)
+
+	// ---- T-wrap: several goroutines sealing for one session at the moment its out sequence wraps (wrap.go) ----
+	stageWrap(c)
 }
